@@ -24,7 +24,8 @@ FullEnv  == WideEnv \cup {"SetIssuer"}
 ConfigEnv == AllEnv \cup {"RemoveConfig", "AddConfig"}                     \* + configurations deleted and put back
 BreakOnlyEnv == {"BreakSignature"}          \* selftest: the property set is not satisfiable for this kind of corruption
 ConfigOnlyEnv == {"RemoveConfig", "AddConfig"}
-EverythingEnv == FullEnv \cup {"RemoveConfig", "AddConfig"}
+ProfileEnv == WideEnv \cup {"RemoveProfile", "AddProfile"}                  \* + the shared profile file deleted and put back
+EverythingEnv == FullEnv \cup {"RemoveConfig", "AddConfig", "RemoveProfile", "AddProfile"}
 ExpiryFlagSets == SUBSET {"m", "c", "e"}
 NoProfile == {}
 LeafProfile == {"l"}
